@@ -140,6 +140,10 @@ def any_exception(I, label, bound="BaseException"):
     return I.sym_exception(ExternalRef(bound), label)
 
 
+def _b(x):
+    return z3.BoolVal(x) if isinstance(x, bool) else x
+
+
 def asyncio_run(I, args, kwargs):
     """asyncio.run(coro): yields coro's outcome (result or the very exception), on a new loop in the calling thread"""
     ctx = I.ctx
@@ -152,6 +156,15 @@ def asyncio_run(I, args, kwargs):
     except PyRaise as pr:
         ctx.store_raw(z3.IntVal(0), "$ghost_loop_exc", pr.exc.t)
         raise
+    ge = ctx.ghost.get("gather_raised_exc")
+    if ge is not None:
+        # (assumed, asyncio.tasks.Task.__step) a KeyboardInterrupt / SystemExit raised inside a TASK is carried out of the event loop at once
+        # and leaves asyncio.run by itself - after asyncio.run's own cleanup, during which the main coroutine is resumed (cancelled) and may
+        # finish as it likes; what the main coroutine does with the exception it sees then does not bring it back
+        own = z3.Or(_b(I.isa_term(ge, ExternalRef("KeyboardInterrupt"))), _b(I.isa_term(ge, ExternalRef("SystemExit"))))
+        if ctx.branch(own, "loop-carried-exception"):
+            ctx.store_raw(z3.IntVal(0), "$ghost_loop_exc", ge.t)
+            raise PyRaise(ge)
     ctx.store_raw(z3.IntVal(0), "$ghost_loop_exc", Z.NONE)
     return r
 
@@ -195,6 +208,7 @@ def asyncio_gather(I, args, kwargs):
             if ctx.choose(2, "gather-outcome") == 1:
                 e = any_exception(I, "gathered")
                 ctx.emit("gather-raised", e)
+                ctx.ghost["gather_raised_exc"] = e
                 raise PyRaise(e)
         else:
             if ctx.choose(2, "gather-cancelled") == 1:
